@@ -35,7 +35,22 @@ Definition no_gsm : resets :=
      rs_mmeth := true; rs_msets := true; rs_mmaps := true; rs_mfuncs := true |}.
 Definition no_mctor : resets :=
   {| rs_hasnew := true; rs_gsm := true; rs_getset := true; rs_mfields := true; rs_mtags := true; rs_mctor := false;
+     rs_mmeth := true; rs_msets := true; rs_mmaps := true; rs_mfuncs := true |}.
+Definition no_mmeth : resets :=
+  {| rs_hasnew := true; rs_gsm := true; rs_getset := true; rs_mfields := true; rs_mtags := true; rs_mctor := true;
      rs_mmeth := false; rs_msets := true; rs_mmaps := true; rs_mfuncs := true |}.
+Definition no_getset : resets :=
+  {| rs_hasnew := true; rs_gsm := true; rs_getset := false; rs_mfields := true; rs_mtags := true; rs_mctor := true;
+     rs_mmeth := true; rs_msets := true; rs_mmaps := true; rs_mfuncs := true |}.
+Definition no_mtags : resets :=
+  {| rs_hasnew := true; rs_gsm := true; rs_getset := true; rs_mfields := true; rs_mtags := false; rs_mctor := true;
+     rs_mmeth := true; rs_msets := true; rs_mmaps := true; rs_mfuncs := true |}.
+Definition no_mmaps : resets :=
+  {| rs_hasnew := true; rs_gsm := true; rs_getset := true; rs_mfields := true; rs_mtags := true; rs_mctor := true;
+     rs_mmeth := true; rs_msets := true; rs_mmaps := false; rs_mfuncs := true |}.
+Definition no_mfuncs : resets :=
+  {| rs_hasnew := true; rs_gsm := true; rs_getset := true; rs_mfields := true; rs_mtags := true; rs_mctor := true;
+     rs_mmeth := true; rs_msets := true; rs_mmaps := true; rs_mfuncs := false |}.
 Definition no_mfields : resets :=
   {| rs_hasnew := true; rs_gsm := true; rs_getset := true; rs_mfields := false; rs_mtags := true; rs_mctor := true;
      rs_mmeth := true; rs_msets := true; rs_mmaps := true; rs_mfuncs := true |}.
@@ -123,3 +138,73 @@ Lemma reset_map_effective :
   toks_of (map_make id_oracle c_map "dest" v_dest (state_after (map_make id_oracle c_map "dest" v_dest mstate0 v_src "Order2") mstate0) v_src "Order")
   = toks_of (map_make id_oracle c_map "dest" v_dest mstate0 v_src "Order").
 Proof. vm_compute. reflexivity. Qed.
+
+(* g.getter = true; g.setter = true: A carries the type-level directive `shoot: setter`, B has none *)
+Definition hw_tl : list hfile :=
+  [hfile1 "a.go" [HStruct {| ss_name := "A"; ss_tparams := []; ss_hasdoc := true; ss_dgetter := false; ss_dsetter := true;
+                             ss_items := [IField (fld "x" "int")] |};
+                  strct "B" [IField (fld "z" "string")]]].
+Definition v_tl : pview := pview_of (mk_view hw_tl [] []).
+Definition c_tl := cmd_new "shoot new -getset -type=A,B" ["A"; "B"] true false.
+Definition getters_of (r : mres ndata nstate) : list string * list string :=
+  match r with MOk d _ _ => (nd_getters d, nd_setters d) | _ => (["?"], []) end.
+Lemma reset_getter_setter_needed :
+  getters_of (new_make_gen no_getset c_tl (state_after (new_make_gen no_getset c_tl nstate0 v_tl "A") nstate0) v_tl "B")
+  <> getters_of (new_make_gen no_getset c_tl nstate0 v_tl "B").
+Proof. vm_compute. discriminate. Qed.
+
+(* the mapper's accessor lists: Order2 has a shoot-new destination, Order a plain one *)
+Lemma reset_map_methods_needed :
+  toks_of (map_make_gen no_mmeth id_oracle c_map "dest" v_dest
+             (state_after (map_make_gen no_mmeth id_oracle c_map "dest" v_dest mstate0 v_src "Order2") mstate0) v_src "Order")
+  <> toks_of (map_make_gen no_mmeth id_oracle c_map "dest" v_dest mstate0 v_src "Order").
+Proof. vm_compute. discriminate. Qed.
+
+(* g.srcTagMap: Tagged renames Name to Label through a map tag; Plain has Name and the destination has both *)
+Definition mfld_tag (n ty tag : string) : sitem :=
+  IField {| sf_name := n; sf_ty := ty; sf_ptr := false; sf_hasdoc := false; sf_dget := false; sf_dset := false; sf_dnew := false;
+            sf_def := ""; sf_newskip := false; sf_jsontag := ""; sf_maptag := tag |}.
+Definition hw_src_tg : list hfile :=
+  [hfile1 "model.go" [strct "Tagged" [mfld_tag "Name" "string" "Label"]; strct "Plain" [mfld "Name" "string"]]].
+Definition hw_dest_tg : list hfile :=
+  [hfile1 "dest.go" [strct "Tagged" [mfld "Label" "string"]; strct "Plain" [mfld "Name" "string"; mfld "Label" "string"]]].
+Definition v_src_tg : pview := pview_of (mk_view hw_src_tg [] []).
+Definition v_dest_tg : pview := pview_of (mk_view hw_dest_tg [] []).
+Definition c_map_tg := cmd_map "shoot map -path=../dest -type=Tagged,Plain" ["Tagged"; "Plain"].
+Lemma reset_map_tags_needed :
+  toks_of (map_make_gen no_mtags id_oracle c_map_tg "dest" v_dest_tg
+             (state_after (map_make_gen no_mtags id_oracle c_map_tg "dest" v_dest_tg mstate0 v_src_tg "Tagged") mstate0) v_src_tg "Plain")
+  <> toks_of (map_make_gen no_mtags id_oracle c_map_tg "dest" v_dest_tg mstate0 v_src_tg "Plain").
+Proof. vm_compute. discriminate. Qed.
+
+(* g.mappingFuncList: WithM embeds the mapper struct, NoM does not *)
+Definition hw_src_fn : list hfile :=
+  [hfile1 "model.go" [strct "Mapper" []; HFuncs "Mapper" [("IntToStr", "int64", "string")];
+                      strct "WithM" [IEmbed "Mapper" false false; mfld "V" "int64"]; strct "NoM" [mfld "V" "int64"]]].
+Definition hw_dest_fn : list hfile :=
+  [hfile1 "dest.go" [strct "WithM" [mfld "V" "string"]; strct "NoM" [mfld "V" "string"]]].
+Definition v_src_fn : pview := pview_of (mk_view hw_src_fn [] []).
+Definition v_dest_fn : pview := pview_of (mk_view hw_dest_fn [] []).
+Definition c_map_fn := cmd_map "shoot map -path=../dest -type=WithM,NoM" ["WithM"; "NoM"].
+Lemma reset_map_funcs_needed :
+  toks_of (map_make_gen no_mfuncs id_oracle c_map_fn "dest" v_dest_fn
+             (state_after (map_make_gen no_mfuncs id_oracle c_map_fn "dest" v_dest_fn mstate0 v_src_fn "WithM") mstate0) v_src_fn "NoM")
+  <> toks_of (map_make_gen no_mfuncs id_oracle c_map_fn "dest" v_dest_fn mstate0 v_src_fn "NoM").
+Proof. vm_compute. discriminate. Qed.
+
+(* g.readSrcMap / g.writeSrcMap: First maps the promoted field Deep of its embedded *Inner, Second embeds *Inner too but its
+   destination has no Deep *)
+Definition hw_src_mm : list hfile :=
+  [hfile1 "model.go" [strct "Inner" [mfld "Deep" "string"];
+                      strct "First" [IEmbed "Inner" true false; mfld "Id" "int"];
+                      strct "Second" [IEmbed "Inner" true false; mfld "Id" "int"]]].
+Definition hw_dest_mm : list hfile :=
+  [hfile1 "dest.go" [strct "First" [mfld "Id" "int"; mfld "Deep" "string"]; strct "Second" [mfld "Id" "int"]]].
+Definition v_src_mm : pview := pview_of (mk_view hw_src_mm [] []).
+Definition v_dest_mm : pview := pview_of (mk_view hw_dest_mm [] []).
+Definition c_map_mm := cmd_map "shoot map -path=../dest -type=First,Second" ["First"; "Second"].
+Lemma reset_map_maps_needed :
+  toks_of (map_make_gen no_mmaps id_oracle c_map_mm "dest" v_dest_mm
+             (state_after (map_make_gen no_mmaps id_oracle c_map_mm "dest" v_dest_mm mstate0 v_src_mm "First") mstate0) v_src_mm "Second")
+  <> toks_of (map_make_gen no_mmaps id_oracle c_map_mm "dest" v_dest_mm mstate0 v_src_mm "Second").
+Proof. vm_compute. discriminate. Qed.
